@@ -122,6 +122,7 @@ type dsWorld struct {
 	idleTTL         time.Duration
 	slowHook        bool
 	atHead          bool
+	holdAsync       bool
 	hooksAtClose    int
 	storeOpsAtClose int
 }
@@ -275,6 +276,12 @@ func runDsync(r *simkit.Run, c Cfg, mode dsMode) {
 	if d.limit > 0 {
 		sopts = append(sopts, dagsync.MaxAsyncConcurrency(d.limit))
 	}
+	if mode.closing && tp.Chance(1, 2, "holdAsync") {
+		// no request time limit comes to the rescue of a Close that waits
+		// for a publisher
+		d.holdAsync = true
+		sopts = append(sopts, dagsync.HttpTimeout(6*time.Hour))
+	}
 	if mode.directed && tp.Chance(1, 3, "prelude.atHead") {
 		// the prelude holds an explicit sync at its head query for longer
 		// than the idle-handler TTL: the request time limit must be longer
@@ -367,6 +374,21 @@ func runDsync(r *simkit.Run, c Cfg, mode dsMode) {
 			}
 		})
 	}
+	if mode.name == "c08" && tp.Chance(1, 4, "remover?") {
+		// the application drops a publisher's handler now and then
+		// (RemoveHandler is public API): whatever sync of that publisher is
+		// running then, a later one must not run beside it
+		n := tp.Range(1, 3, "nRemove")
+		r.Go("remover", func(t *simkit.Task) {
+			for i := 0; i < n; i++ {
+				t.Yield("op")
+				pub := d.pubs[tp.Choose(len(d.pubs), "rmPub")]
+				ok := d.sub.Sub.RemoveHandler(pub.Ident.ID)
+				r.Probe("remove-handler-called")
+				t.Logf("RemoveHandler(%s) -> %v", pub.Name, ok)
+			}
+		})
+	}
 	if mode.listeners {
 		nl := tp.Range(1, 4, "nListeners")
 		for i := 0; i < nl; i++ {
@@ -436,6 +458,22 @@ func runDsync(r *simkit.Run, c Cfg, mode dsMode) {
 		return
 	}
 	custom := func(p *simkit.Parked) *simkit.Action {
+		if d.holdAsync && p.Site == "net.req" && d.closeCalled && !d.closeDone {
+			// Close must cancel announce-triggered syncs, not wait for their
+			// publisher: while Close is in progress, a publisher whose lock
+			// is held by an announce-triggered sync with an explicit sync
+			// queued behind it does not answer any more.
+			if q, ok := p.Data.(*simkit.ReqRecord); ok {
+				if g, ok := d.holder[q.Server]; ok && d.asyncFor[g] != "" {
+					for _, p2 := range r.AllParked() {
+						if p2.Site == "sync.lock" && p2.Who == q.Server && strings.HasPrefix(r.TaskOf(p2.GID), "exp") {
+							r.Probe("close-with-explicit-sync-queued-behind-a-held-announce-sync")
+							return &simkit.Action{Name: "hold " + q.String(), Do: nil}
+						}
+					}
+				}
+			}
+		}
 		if a := w.Net.RequestAction(p); a != nil {
 			return a
 		}
@@ -668,7 +706,7 @@ func runDsync(r *simkit.Run, c Cfg, mode dsMode) {
 		}
 	}
 	if r.Failed() && os.Getenv("VERIF_DUMP") != "" {
-		for _, g := range simkit.DumpGoroutines() {
+		for _, g := range simkit.DumpBubble() {
 			if g.Bubble != "" && g.LibraryFrame() {
 				fmt.Fprintln(os.Stderr, g.Stack+"\n")
 			}
@@ -1247,7 +1285,7 @@ func (d *dsWorld) closeChecks() {
 	// post-close battery: every entry point returns promptly
 	d.postCloseBattery()
 	// goroutine census
-	for _, g := range simkit.DumpGoroutines() {
+	for _, g := range simkit.DumpBubble() {
 		if g.Bubble != "" && (g.CreatedByLibrary() || g.LibraryFrame()) && !strings.Contains(g.Stack, "verif/sim/") {
 			r.Violate(o+".leak", "goroutine started by the subscriber is still alive after Close returned: %s [%s]", g.TopFunc(), g.State)
 			break
